@@ -318,13 +318,13 @@ def deep_combs(R):
             R.count('deep_comb_cases')
             if st == 'exc':
                 R.exc(cell)
-                R.violation('recursion-limit-nested-forks-serialize' if isinstance(cell, RecursionError) else f'deep-comb-serialize-raises-{type(cell).__name__}',
+                R.violation('recursion-limit-nested-forks-serialize' if isinstance(cell, RecursionError) and depth >= 600 else f'deep-comb-{depth}-serialize-raises-{type(cell).__name__}',
                             f'HashMap.serialize raised {type(cell).__name__} for a valid map whose tree nests {depth} forks', W)
                 continue
             st, got = mon.call(lambda: {int(k, 2): v.load_uint(8) for k, v in parse_hashmap(cell.begin_parse(), w).items()})
             if st == 'exc':
                 R.exc(got)
-                R.violation('recursion-limit-nested-forks-parse' if isinstance(got, RecursionError) else f'deep-comb-parse-raises-{type(got).__name__}',
+                R.violation('recursion-limit-nested-forks-parse' if isinstance(got, RecursionError) and depth >= 600 else f'deep-comb-{depth}-parse-raises-{type(got).__name__}',
                             f'parse_hashmap raised {type(got).__name__} on the library\'s own cell of a map whose tree nests {depth} forks', W)
                 continue
             R.check(got == {k: k % 251 for k in keys} and list(got) == sorted(got), 'deep-comb-roundtrip', f'a map nesting {depth} forks does not round-trip', W)
